@@ -54,14 +54,20 @@ type call struct {
 }
 
 type mockThings struct {
-	calls   []call
-	outcome func(method string) error
-	item    *vt.Item
+	calls      []call
+	outcome    func(method string) error
+	outcomeCtx func(ctx *restli.RequestContext, method string) error
+	item       *vt.Item
+	batch      *things.BatchEntities
+	ctx        *restli.RequestContext
 }
 
 func (m *mockThings) rec(c call) error {
 	c.resource = "things"
 	m.calls = append(m.calls, c)
+	if m.outcomeCtx != nil {
+		return m.outcomeCtx(m.ctx, c.method)
+	}
 	if m.outcome != nil {
 		return m.outcome(c.method)
 	}
@@ -69,10 +75,12 @@ func (m *mockThings) rec(c call) error {
 }
 
 func (m *mockThings) Get(ctx *restli.RequestContext, thingId string) (*vt.Item, error) {
+	m.ctx = ctx
 	err := m.rec(call{method: "get", key: thingId})
 	return m.item, err
 }
 func (m *mockThings) Create(ctx *restli.RequestContext, entity *vt.Item) (*things.CreatedEntity, error) {
+	m.ctx = ctx
 	err := m.rec(call{method: "create", item: entity})
 	if err != nil {
 		return nil, err
@@ -80,51 +88,67 @@ func (m *mockThings) Create(ctx *restli.RequestContext, entity *vt.Item) (*thing
 	return &things.CreatedEntity{Id: "new"}, nil
 }
 func (m *mockThings) Update(ctx *restli.RequestContext, thingId string, entity *vt.Item) error {
+	m.ctx = ctx
 	return m.rec(call{method: "update", key: thingId, item: entity})
 }
 func (m *mockThings) PartialUpdate(ctx *restli.RequestContext, thingId string, entity *vt.Item_PartialUpdate) error {
+	m.ctx = ctx
 	return m.rec(call{method: "partial_update", key: thingId, patch: entity})
 }
 func (m *mockThings) Delete(ctx *restli.RequestContext, thingId string) error {
+	m.ctx = ctx
 	return m.rec(call{method: "delete", key: thingId})
 }
 func (m *mockThings) GetAll(ctx *restli.RequestContext) (*things.Elements, error) {
+	m.ctx = ctx
 	err := m.rec(call{method: "get_all"})
 	return &things.Elements{}, err
 }
 func (m *mockThings) BatchGet(ctx *restli.RequestContext, keys []string) (*things.BatchEntities, error) {
+	m.ctx = ctx
 	err := m.rec(call{method: "batch_get", keys: keys})
+	if m.batch != nil {
+		return m.batch, err
+	}
 	return &things.BatchEntities{Results: map[string]*vt.Item{}}, err
 }
 func (m *mockThings) BatchCreate(ctx *restli.RequestContext, entities []*vt.Item) ([]*things.CreatedEntity, error) {
+	m.ctx = ctx
 	err := m.rec(call{method: "batch_create"})
 	return nil, err
 }
 func (m *mockThings) BatchUpdate(ctx *restli.RequestContext, entities map[string]*vt.Item) (*things.BatchResponse, error) {
+	m.ctx = ctx
 	err := m.rec(call{method: "batch_update"})
 	return &things.BatchResponse{Results: map[string]*common.BatchEntityUpdateResponse{}}, err
 }
 func (m *mockThings) BatchPartialUpdate(ctx *restli.RequestContext, entities map[string]*vt.Item_PartialUpdate) (*things.BatchResponse, error) {
+	m.ctx = ctx
 	err := m.rec(call{method: "batch_partial_update"})
 	return &things.BatchResponse{Results: map[string]*common.BatchEntityUpdateResponse{}}, err
 }
 func (m *mockThings) BatchDelete(ctx *restli.RequestContext, keys []string) (*things.BatchResponse, error) {
+	m.ctx = ctx
 	err := m.rec(call{method: "batch_delete", keys: keys})
 	return &things.BatchResponse{Results: map[string]*common.BatchEntityUpdateResponse{}}, err
 }
 func (m *mockThings) FindBySearch(ctx *restli.RequestContext, p *things.FindBySearchParams) (*things.Elements, error) {
+	m.ctx = ctx
 	err := m.rec(call{method: "finder:search", q: p.Q})
 	return &things.Elements{}, err
 }
 func (m *mockThings) FindByWithMeta(ctx *restli.RequestContext, p *things.FindByWithMetaParams) (*things.FindByWithMetaElements, error) {
+	m.ctx = ctx
 	err := m.rec(call{method: "finder:withMeta"})
 	return &things.FindByWithMetaElements{Metadata: &vt.Meta{}}, err
 }
 func (m *mockThings) PingAction(ctx *restli.RequestContext, p *things.PingActionParams) (string, error) {
+	m.ctx = ctx
 	err := m.rec(call{method: "action:ping", msg: p.Msg})
 	return "pong", err
 }
 func (m *mockThings) TouchAction(ctx *restli.RequestContext, thingId string) error {
+	m.ctx = ctx
 	return m.rec(call{method: "action:touch", key: thingId})
 }
 
